@@ -77,3 +77,6 @@ def oscrole(run, P):
 def holder(run, P):
     from rules import r_holder
     r_holder.run(run, P, {'build_key', 'coap_new_bin_const'})
+def stalescalar(run, P):
+    from rules import r_stalecopy
+    r_stalecopy.run_scalar(run, P, units=('C01_stalescalar.c',))
